@@ -194,6 +194,16 @@ func (e *env) checkCert(tlsc *tls.Certificate, name string, isIP bool, at time.T
 	return "", "", leaf
 }
 
+// certSig builds the signature of a defect of one issued certificate that does not depend on time or schedule:
+// host-independent symptoms carry no spelling class, the others the class of the spelling and where the name came from.
+func certSig(class, source, sym string) string {
+	switch sym {
+	case "wrong_organization", "key_mismatch", "leaf_field_mismatch", "unknown_authority", "no_chain", "unparsable_leaf", "unparsable_chain":
+		return "cert:" + sym
+	}
+	return "inputs:" + class + ":" + source + ":" + sym
+}
+
 // ---------------------------------------------------------------------------------------------------
 // Part 1: host spellings x SNI x entry point
 // ---------------------------------------------------------------------------------------------------
@@ -373,6 +383,7 @@ func inputsPart(out *shardOut, envs []*env, gs []group, shard, nshards int, hsEv
 					class = "sni_name"
 				}
 				scen := fmt.Sprintf("%s(%q) sni=%q [%s CA]", c.Entry, c.Sp.Text, sni, e.kind)
+				nviol := len(out.Violations)
 				switch {
 				case pan != "":
 					out.violate("inputs:"+class+":"+source+":panic", scen+": panic: "+pan, replay)
@@ -391,7 +402,7 @@ func inputsPart(out *shardOut, envs []*env, gs []group, shard, nshards int, hsEv
 				default:
 					sym, detail, _ := e.checkCert(tlsc, want, wantIP, now)
 					if sym != "" {
-						out.violate("inputs:"+class+":"+source+":"+sym, scen+": "+detail, replay)
+						out.violate(certSig(class, source, sym), scen+": "+detail, replay)
 					}
 					if seen[tlsc] {
 						out.Counters["input_cache_hits"]++
@@ -410,7 +421,8 @@ func inputsPart(out *shardOut, envs []*env, gs []group, shard, nshards int, hsEv
 					out.Samples = append(out.Samples, map[string]interface{}{"part": "inputs", "case": scen, "expect_name": want})
 				}
 				// real handshake for a deterministic subset (first environment only)
-				if ei == 0 && (g.IsIP || g.Name == "" || gi%hsEvery == 0) {
+				// (a case already flagged by the callback-level oracle is not reported a second time under a handshake signature)
+				if ei == 0 && len(out.Violations) == nviol && (g.IsIP || g.Name == "" || gi%hsEvery == 0) {
 					out.Counters["handshakes"]++
 					res := handshake(e, tc, sni, want, wantIP)
 					switch {
@@ -618,6 +630,7 @@ func runHistory(out *shardOut, e *env, h history, u int, states map[string]bool)
 	isIP := h.Class >= 2
 	spell := []string{a, aPort, b}
 	name := []string{a, a, b}
+	spClass := [][]string{{"dns", "dns", "dns"}, {"dns_mixed_case", "dns_mixed_case", "dns"}, {"ipv4", "ipv4", "ipv4"}, {"ipv6_bare", "ipv6_bracket_port", "ipv6_bare"}}[h.Class]
 	e.cfg.SetValidity(h.Validity)
 	type viol struct{ sig, desc string }
 	var viols []viol
@@ -666,8 +679,10 @@ func runHistory(out *shardOut, e *env, h history, u int, states map[string]bool)
 				return
 			}
 			sym, detail, leaf := e.checkCert(tlsc, name[idx], isIP, t)
-			if sym != "" {
+			if sym == "not_valid_at_time" {
 				viols = append(viols, viol{pfx + sym, scen + ": " + detail})
+			} else if sym != "" {
+				viols = append(viols, viol{certSig(spClass[idx], "fallback", sym), scen + ": " + detail})
 			}
 			issuedAt, known := returned[tlsc]
 			switch {
@@ -801,6 +816,8 @@ func programs(maxLen int) [][]int {
 	return out
 }
 
+// scenarios lists the thread sets. Threads are symmetric (every interleaving is enumerated), so thread sets are
+// multisets: programs appear in non-decreasing index order.
 func scenarios(tier string) []scenario {
 	var out []scenario
 	p1, p2 := programs(1), programs(2)
@@ -811,44 +828,36 @@ func scenarios(tier string) []scenario {
 		}
 	}
 	type pr struct{ a, b int }
-	primes := []pr{{0, 0}, {1, 0}, {2, 0}, {0, 2}, {1, 2}, {2, 2}}
+	primes := []pr{{0, 0}, {1, 0}, {2, 0}}
 	classes := []int{0}
 	if tier == "thorough" {
+		primes = []pr{{0, 0}, {1, 0}, {2, 0}, {0, 2}, {1, 2}, {2, 2}}
 		classes = []int{0, 3}
 	}
 	for _, cl := range classes {
 		for _, p := range primes {
 			// three threads, one request each (includes {A,B,A})
-			for _, x := range p1 {
-				for _, y := range p1 {
-					for _, z := range p1 {
+			for i, x := range p1 {
+				for j, y := range p1[i:] {
+					for _, z := range p1[i+j:] {
 						out = append(out, scenario{cl, p.a, p.b, [][]int{x, y, z}})
 					}
 				}
 			}
 			// two threads, one or two requests each
-			for _, x := range p2 {
-				for _, y := range p2 {
+			for i, x := range p2 {
+				for _, y := range p2[i:] {
 					out = append(out, scenario{cl, p.a, p.b, [][]int{x, y}})
 				}
 			}
 		}
 	}
 	if tier == "thorough" {
-		for _, p := range primes {
+		// one thread with two requests and two single requesters
+		for _, p := range []pr{{0, 0}, {1, 0}, {2, 0}, {2, 2}} {
 			for _, x := range len2 {
-				for _, y := range p1 {
-					for _, z := range p1 {
-						out = append(out, scenario{0, p.a, p.b, [][]int{x, y, z}})
-					}
-				}
-			}
-		}
-		// two-request threads x2 plus a single requester; thread identity is irrelevant, so x <= y
-		for _, p := range []pr{{0, 0}, {2, 0}} {
-			for i, x := range len2 {
-				for _, y := range len2[i:] {
-					for _, z := range p1 {
+				for i, y := range p1 {
+					for _, z := range p1[i:] {
 						out = append(out, scenario{0, p.a, p.b, [][]int{x, y, z}})
 					}
 				}
@@ -945,12 +954,32 @@ func concPart(out *shardOut, e *env, scen []scenario, shard, nshards int, deadli
 					}
 				}))
 			}
-			for _, t := range ths {
-				vrt.Join(t)
-			}
+			// one blocking point for the harness root (joining thread by thread would only multiply the
+			// interleavings by the positions of the root's own steps)
+			vrt.WaitUntil("join-all", func() bool {
+				for _, t := range ths {
+					if !t.Done() {
+						return false
+					}
+				}
+				return true
+			})
 			t := vtime.Now()
+			type vkey struct {
+				c *tls.Certificate
+				n string
+			}
+			verified := map[vkey]string{} // oracle results per (object, name): the same object is often handed to several callers
+			check := func(c *tls.Certificate, n string, ip bool) (string, string) {
+				if v, ok := verified[vkey{c, n}]; ok {
+					return v, "(same object as above)"
+				}
+				sym, detail, _ := e.checkCert(c, n, ip, t)
+				verified[vkey{c, n}] = sym
+				return sym, detail
+			}
 			objs := map[*tls.Certificate]int{}
-			pfx := "conc:" + primeNames[sc.PrimeA] + "_" + primeNames[sc.PrimeB] + ":"
+			pfx := "conc:"
 			for _, r := range results {
 				what := fmt.Sprintf("%s: thread %d request %d for %q", sc, r.thread, r.op, r.name)
 				verdict := "ok"
@@ -964,7 +993,7 @@ func concPart(out *shardOut, e *env, scen []scenario, shard, nshards int, deadli
 					verdict = "error"
 					what += ": " + r.err.Error()
 				default:
-					sym, detail, _ := e.checkCert(r.tlsc, r.name, r.isIP, t)
+					sym, detail := check(r.tlsc, r.name, r.isIP)
 					if sym != "" {
 						verdict = sym
 						what += ": " + detail
@@ -974,7 +1003,11 @@ func concPart(out *shardOut, e *env, scen []scenario, shard, nshards int, deadli
 					}
 				}
 				if verdict != "ok" {
-					viols = append(viols, viol{pfx + verdict, what})
+					sig := pfx + verdict
+					if cs := certSig("", "", verdict); strings.HasPrefix(cs, "cert:") {
+						sig = cs
+					}
+					viols = append(viols, viol{sig, what})
 				}
 				id, ok := objs[r.tlsc]
 				if !ok {
@@ -993,11 +1026,15 @@ func concPart(out *shardOut, e *env, scen []scenario, shard, nshards int, deadli
 				v := "ok"
 				if err != nil || pan != "" {
 					v = "error"
-				} else if sym, _, _ := e.checkCert(c, n, isIP, t); sym != "" {
+				} else if sym, _ := check(c, n, isIP); sym != "" {
 					v = sym
 				}
 				if v != "ok" {
-					viols = append(viols, viol{pfx + "after:" + v, fmt.Sprintf("%s: sequential request for %q after the threads finished: %s", sc, n, v)})
+					sig := pfx + "after:" + v
+					if cs := certSig("", "", v); strings.HasPrefix(cs, "cert:") {
+						sig = cs
+					}
+					viols = append(viols, viol{sig, fmt.Sprintf("%s: sequential request for %q after the threads finished: %s", sc, n, v)})
 				}
 				vrt.Log("after %s", v)
 			}
@@ -1017,6 +1054,9 @@ func concPart(out *shardOut, e *env, scen []scenario, shard, nshards int, deadli
 			fatal("%s: %s", sc, st.EngineError)
 		}
 		sinceRenew += st.Execs
+		if os.Getenv("C06_DEBUG") != "" {
+			fmt.Fprintf(os.Stderr, "scenario %d %s: execs=%d maxpoints=%d maxchoices=%d distinct=%d\n", si, sc, st.Execs, st.MaxPoints, st.MaxChoices, st.DistinctLogs)
+		}
 		out.Counters["conc_scenarios"]++
 		out.Counters["conc_executions"] += int64(st.Execs)
 		out.Counters["conc_points"] += st.Points
@@ -1081,6 +1121,7 @@ func main() {
 	rep := lib.NewReport("C06", "model_checking")
 	files, errs, outs := lib.RunShards(nShards, lib.Root+"/.build/c06/shards")
 	sets := map[string]map[string]bool{}
+	var allViol []lib.Violation
 	for i, f := range files {
 		if errs[i] != nil {
 			fmt.Fprintf(os.Stderr, "shard %d failed: %v\n%s\n", i, errs[i], outs[i])
@@ -1101,9 +1142,7 @@ func main() {
 			}
 			rep.Count(k, v)
 		}
-		for _, v := range so.Violations {
-			rep.Violate(v.Sig, v.Desc, v.Replay)
-		}
+		allViol = append(allViol, so.Violations...)
 		for _, s := range so.Samples {
 			rep.Sample(10, s)
 		}
@@ -1118,6 +1157,17 @@ func main() {
 		if so.Incomplete != "" {
 			rep.Incomplete = so.Incomplete
 		}
+	}
+	// simplest (shortest description) first, so that the recorded example of each signature is a minimal one
+	sort.SliceStable(allViol, func(i, j int) bool {
+		a, b := allViol[i], allViol[j]
+		if (a.Desc == "") != (b.Desc == "") {
+			return a.Desc != ""
+		}
+		return len(a.Desc) < len(b.Desc)
+	})
+	for _, v := range allViol {
+		rep.Violate(v.Sig, v.Desc, v.Replay)
 	}
 	nsp := 0
 	for _, g := range gs {
